@@ -900,6 +900,7 @@ def check_contract(ct, tier, seed, k_samples):
     P.GROEBNER_BUDGET_S[0] = float(ct.opts.get('groebner_s', 25.0 if tier == 'quick' else 120.0))
     rng = random.Random(_seed_for(ct.name, seed))
     accepted = rejected = 0
+    num_ok = {}
     num_fail = []
     mismatches = []
     inhabited = set()
@@ -921,13 +922,16 @@ def check_contract(ct, tier, seed, k_samples):
             num_fail.append({'clause': ct.opts.get('raise_clause', ct.name + '.no_exception'),
                              'draws': _jsonable(ctx.draws), 'exception': exc})
             continue
+        for (cid_, kind_, ok_, note_) in ctx.goals:
+            if ok_:
+                num_ok[cid_] = num_ok.get(cid_, 0) + 1
         for cid, note in fails:
             num_fail.append({'clause': cid, 'draws': _jsonable(ctx.draws), 'note': note,
                              'observed': [repr(x) for x in ctx.obs.get(cid, [])][:4]})
         if fails:
             continue
         # encoder cross-check on the same input
-        if ct.opts.get('concolic', True) and concolic_ok + len(mismatches) < ct.opts.get('concolic_n', 5 if tier == 'quick' else 50):
+        if ct.opts.get('concolic', True) and not ct.opts.get('numeric_only') and concolic_ok + len(mismatches) < ct.opts.get('concolic_n', 5 if tier == 'quick' else 50):
             c2, path, err = run_concolic(ct, dict(ctx.draws), rng)
             if err is None:
                 inhabited.add(tuple(sorted((k, tuple(sorted(v[1]))) for k, v in path.signs.items()))[:0] or
@@ -963,7 +967,13 @@ def check_contract(ct, tier, seed, k_samples):
                     concolic_ok += 1
             elif err.startswith('exception'):
                 mismatches.append({'clause': ct.name, 'draws': _jsonable(ctx.draws), 'symbolic': err, 'real': 'no exception'})
-    if num_fail and not ct.opts.get('always_symbolic'):
+    if ct.opts.get('numeric_only'):
+        # bounded stand-in: the contract is only evaluated on the real code (K concrete inputs); never counted as proved
+        cl = {}
+        for cid, n_ok in num_ok.items():
+            cl[cid] = {'paths': n_ok, 'proved': n_ok, 'backends': {'runtime': n_ok}, 'failed': [], 'seconds': 0.0, 'bounded': True}
+        out['symbolic'] = {'clauses': cl, 'paths': 0, 'errors': [], 'solver_s': 0.0, 'samples': [], 'wd_assumed': [], 'assumed': []}
+    elif num_fail and not ct.opts.get('always_symbolic'):
         out['symbolic'] = {'clauses': {}, 'paths': 0, 'errors': [], 'solver_s': 0.0, 'samples': [],
                            'wd_assumed': [], 'assumed': [], 'skipped': 'concrete failure on the real code'}
     else:
